@@ -11,6 +11,7 @@ import (
 	"strconv"
 	"strings"
 	"sync"
+	"syscall"
 	"time"
 
 	"github.com/mimecast/dtail/verifharness/internal/vlib"
@@ -220,8 +221,9 @@ func c04(r *vlib.Run) int {
 		c04Check(r, i, typed[i], exps[i], &res)
 	}
 	var hk sync.WaitGroup
-	hk.Add(1)
+	hk.Add(2)
 	go func() { defer hk.Done(); c04Housekeeping(r) }()
+	go func() { defer hk.Done(); c04Interrupt(r) }()
 	c04E2E(r)
 	hk.Wait()
 	return n / 2
@@ -449,6 +451,112 @@ func c04E2E(r *vlib.Run) {
 		if bad != "" || res.Panicked() {
 			r.Violation("e2e-follow", map[string]interface{}{"ssh": ssh, "why": bad, "appended": len(expected), "delivered": len(got),
 				"exit": res.Exit, "stderr": vlib.Trunc(string(res.Stderr), 1000), "stdout_tail": vlib.Trunc(lastN(string(res.Stdout), 600), 700)})
+		}
+	})
+}
+
+// c04Interrupt: the user hits Ctrl+C once during a follow: dtail prints its
+// connection statistics, holds its output back for a few seconds and resumes,
+// while the file keeps growing and stdout is a pipe read at a moderate pace.
+// What is delivered (before, during and after the pause) must be appended
+// lines, each at most once, in the order they were appended.
+func c04Interrupt(r *vlib.Run) {
+	n := r.N(3, 12)
+	dir, _ := filepath.EvalSymlinks(r.Dir("c04int"))
+	vlib.Parallel(n, 4, func(i int) {
+		path := filepath.Join(dir, fmt.Sprintf("i%d.log", i))
+		os.WriteFile(path, []byte("OLD-0 keep\nOLD-1 keep\n"), 0644)
+		defer os.Remove(path)
+		home := serverlessHome(r)
+		var pid int
+		var pmu sync.Mutex
+		cmd := vlib.Cmd{Path: r.Bin("dtail"), Dir: home, Watchdog: 120 * time.Second,
+			Args: []string{"--cfg", "none", "--logger", "stdout", "--logLevel", "error", "--noColor", "--shutdownAfter", "10", "--files", path},
+			Env:  []string{"HOME=" + home}}
+		appended := map[string]int{}
+		var amu sync.Mutex
+		var wg sync.WaitGroup
+		wg.Add(1)
+		positioned := false
+		go func() {
+			defer wg.Done()
+			deadline := time.Now().Add(4 * time.Second)
+			for time.Now().Before(deadline) {
+				pmu.Lock()
+				p := pid
+				pmu.Unlock()
+				if p != 0 && fdPos(p, path) == 22 {
+					positioned = true
+					break
+				}
+				time.Sleep(3 * time.Millisecond)
+			}
+			if !positioned {
+				return
+			}
+			fd, _ := os.OpenFile(path, os.O_APPEND|os.O_WRONLY, 0644)
+			defer fd.Close()
+			start := time.Now()
+			signalled := false
+			for k := 0; time.Since(start) < 8*time.Second; k++ {
+				l := fmt.Sprintf("int%06d-%d line appended around an interrupt", k, i)
+				amu.Lock()
+				appended[l] = k
+				amu.Unlock()
+				fd.WriteString(l + "\n")
+				time.Sleep(time.Duration(20+10*(i%3)) * time.Millisecond)
+				if !signalled && time.Since(start) > 1500*time.Millisecond {
+					signalled = true
+					pmu.Lock()
+					syscall.Kill(pid, syscall.SIGINT)
+					pmu.Unlock()
+				}
+			}
+		}()
+		res, out := runPacedPid(cmd, pacing{Kind: "slow", Chunk: 200, DelayMs: 6}, 4096, func(p int) { pmu.Lock(); pid = p; pmu.Unlock() })
+		wg.Wait()
+		r.Eval(fmt.Sprintf("interrupt|%d", i))
+		r.Count("interrupted_follows", 1)
+		if res.TimedOut || !positioned {
+			r.Inconclusive("dtail-interrupt-not-positioned-or-watchdog")
+			return
+		}
+		if bytes.Contains(out, []byte("Connection stats")) {
+			r.Count("interrupted_follows_stats_seen", 1)
+		}
+		last, bad, delivered := -1, "", 0
+		seen := map[string]bool{}
+		lines := strings.Split(string(out), "\n")
+		for li, l := range lines {
+			if !strings.HasPrefix(l, "REMOTE|") || li == len(lines)-1 {
+				continue
+			}
+			p := strings.SplitN(l, "|", 6)
+			if len(p) != 6 {
+				continue
+			}
+			amu.Lock()
+			k, ok := appended[p[5]]
+			amu.Unlock()
+			switch {
+			case !ok:
+				bad = fmt.Sprintf("delivered line was never appended as such: %q", vlib.Trunc(p[5], 120))
+			case seen[p[5]]:
+				bad = fmt.Sprintf("line delivered twice: %q", p[5])
+			case k < last:
+				bad = fmt.Sprintf("line #%d delivered after line #%d", k, last)
+			}
+			if bad != "" {
+				break
+			}
+			seen[p[5]] = true
+			last = k
+			delivered++
+		}
+		r.Count("interrupted_follow_lines_checked", delivered)
+		if bad != "" || res.Panicked() {
+			r.Violation("follow-output-out-of-order-around-an-interrupt", map[string]interface{}{"why": bad, "delivered": delivered, "exit": res.Exit,
+				"stderr": vlib.Trunc(string(res.Stderr), 800)})
 		}
 	})
 }
